@@ -47,3 +47,11 @@ C04_POP_EXCEPTIONS = {
 C04_START_EXCEPTIONS = {
     "NewListItemMarkdownToken": "a new-list-item token is never closed by an end token of its own (the list's end closes it); requires_end_token is inherited from the container base",
 }
+
+# C02 R02f: boolean locals of the parse / regeneration pipeline that hold one constant by design
+# (keyed by function and constant, one local each - local names are not part of the key)
+C02_CONSTANT_FLAGS = {
+    "BlockQuoteNonFencedHelper.__do_block_quote_leading_spaces_adjustments: False": "'special_case' names the constant argument handed to the adjustment helper (the special case is decided by the other caller)",
+    "TransformContainers.__apply_line_transformation_check: True": "'kludge_flag' is the switch that turns the line-by-line consistency assertion off, documented as a kludge in the source",
+    "TransformContainers.__adjust_for_list_adjust_block_quote: True": "'block_start_on_remove' names the constant argument of this call path; the sibling path computes it",
+}
